@@ -221,14 +221,15 @@ fn run_history(ops: &[Op]) -> String {
         match res {
             CommandResult::Continue(Some(v)) => {
                 // iteration order of HashMap / HashSet is unspecified: take the ascending representative
+                names.see(&v, &ctx);
                 if op.cmd == "map_keys" || op.cmd == "set_to_array" {
                     if let Some(h) = handles_mut(&mut ctx) {
                         if let Some(StateValue::List(l)) = h.get_mut(&v) {
-                            l.sort_by(|a, b| cell_string(a).cmp(&cell_string(b)));
+                            // (ordered by the renamed text: stored real handles are random strings)
+                            l.sort_by_key(|a| cell_string(a).map(|s| names.rename(&s)));
                         }
                     }
                 }
-                names.see(&v, &ctx);
                 outs.push(enc_str(&names.rename(&v)));
                 ctx.variables.insert(ovar, v);
                 expected_vars += 1;
@@ -276,7 +277,7 @@ fn run_history(ops: &[Op]) -> String {
 
 /// values for native commands: anything
 const ODD_VALUES: [&str; 30] = [
-    "", "a", "b", "x y", " ", "  two  ", "ü", "日本語", "🦆", "handle:abcdefghijklmnopqrst", "handle:", "handle:1", "true", "false", "0", "1", "-1", "$x", "${a0_0}", "%{o0}", "# c", "\"q\"", "a\nb", "\r", "=z", "\\", "\\${x}", "\t", "a,b", "-r",
+    "", "a", "b", "x y", " ", "  two  ", "ü", "日本語", "🦆", "handle:abcdefghijklmnopqrst", "handle:", "handle:x1", "true", "false", "0", "1", "-1", "$x", "${a0_0}", "%{o0}", "# c", "\"q\"", "a\nb", "\r", "=z", "\\", "\\${x}", "\t", "a,b", "-r",
 ];
 /// values that may reach script-implemented commands (see `rule`)
 const SAFE_VALUES: [&str; 14] = ["a", "b", "c", "x y", "A_1.-", "ü", "日本語", "handle:abcdefghijklmnopqrst", "7", "0", "key 1", "Z", "é è", "long-value_with.many-parts"];
@@ -355,7 +356,7 @@ impl<'a> Gen<'a> {
             None => {
                 if roll >= 18 || self.tracks.is_empty() {
                     self.tags.push("unknown-handle");
-                    let v = *self.rng.pick(&["handle:abcdefghijklmnopqrst", "nope", "", "handle:1"]);
+                    let v = *self.rng.pick(&["handle:abcdefghijklmnopqrst", "nope", "", "handle:0000000000000000000"]);
                     (Arg::Lit(v.to_string()), None)
                 } else {
                     let i = self.rng.below(self.tracks.len());
@@ -886,7 +887,6 @@ impl Prop for C12Prop {
         }
     }
     fn fixed_cases(&self, _tier: Tier) -> Vec<Case> {
-        if std::env::var("C12_DEBUG").is_ok() { std::panic::set_hook(Box::new(|i| eprintln!("{}", i))); }
         let mut v = confusion_cases();
         v.extend(fixed_histories());
         v
@@ -896,6 +896,25 @@ impl Prop for C12Prop {
     }
     fn run_impl(&self, req: &str, _m: &str) -> String {
         run_history(&dec_ops(req))
+    }
+    fn known(&self, req: &str, _m: &str, imp: &str) -> Option<String> {
+        // finding C12-array-concat-after-error: an array_concat that failed leaves the for-in
+        // iteration counter of its validation loop in Context.state; the next array_concat skips
+        // validating its first argument(s)
+        let ops = dec_ops(req);
+        let outs: Vec<&str> = imp.split(' ').next().unwrap_or("").split(',').collect();
+        let mut failed_before = false;
+        for (k, o) in ops.iter().enumerate() {
+            if o.cmd == "array_concat" {
+                if failed_before {
+                    return Some("C12-array-concat-after-error".to_string());
+                }
+                if outs.get(k) == Some(&"E") {
+                    failed_before = true;
+                }
+            }
+        }
+        None
     }
     fn shrink(&self, req: &str) -> Vec<String> {
         let ops = dec_ops(req);
